@@ -270,6 +270,37 @@ fn enum_large(_tier: Tier, f: &mut dyn FnMut(SeqCase) -> bool) {
         new.extend([2, 7, 2]);
         cases.push(SeqCase::full(1, old, new));
     }
+    // a long stretch (2300 items) without any unique item and without a new value, the unique items
+    // only behind it, crossing
+    {
+        let filler: Vec<u32> = (0..2300u32).map(|i| i % 2).collect();
+        let mut old = filler.clone();
+        old.extend([9, 7, 7, 8]);
+        let mut new = filler.clone();
+        new.extend([7, 7, 9, 8]);
+        cases.push(SeqCase::full(1, old, new));
+        let mut old = filler.clone();
+        old.extend(100..140u32);
+        let mut new = filler;
+        new.extend((100..140u32).filter(|x| x % 2 == 0));
+        new.extend((100..140u32).filter(|x| x % 2 == 1));
+        cases.push(SeqCase::full(1, old, new));
+    }
+    // few unique items on one side in front of a long periodic tail (600 items): every pair of heads of
+    // up to 3 items over {12, 13, 14} - a head item may be unique in old and repeated in new
+    {
+        let heads = all_seqs(3, 3);
+        let tail: Vec<u32> = (0..600u32).map(|i| i % 2).collect();
+        for a in &heads {
+            for b in &heads {
+                let mut old: Vec<u32> = a.iter().map(|x| x + 12).collect();
+                old.extend(&tail);
+                let mut new: Vec<u32> = b.iter().map(|x| x + 12).collect();
+                new.extend(&tail);
+                cases.push(SeqCase::full(1, old, new));
+            }
+        }
+    }
     for mut c in cases {
         c.mode = 0;
         if !f(c) {
@@ -311,7 +342,7 @@ impl Prop for C15 {
             Stage {
                 name: "large",
                 kind: StageKind::Enumerate {
-                    scope: "10 fixed cases: 300 / 520 / 1100 unique common items that cross (evens before odds; exchanged thirds), outnumbered by repeated filler; rotations of 700 and 1500 distinct items; 66 000 distinct common items with a unique item crossed by repeats behind (and in front of) them".into(),
+                    scope: "1612 fixed cases: 2 with the unique items only behind 2300 items without any (crossing); all 1600 pairs of heads of up to 3 items over 3 values in front of a 600-item periodic tail; 300 / 520 / 1100 unique common items that cross (evens before odds; exchanged thirds), outnumbered by repeated filler; rotations of 700 and 1500 distinct items; 66 000 distinct common items with a unique item crossed by repeats behind (and in front of) them".into(),
                     exhaustive: true,
                     gen: enum_large,
                 },
